@@ -166,6 +166,17 @@ func (g *cityGen) genTagOp() op {
 	var id b6.FeatureID
 	if x, ok := g.anyExistingID(); ok && !rc.Pct(4) {
 		id = x
+		// bias towards features that others stand on (rings under areas and
+		// their corner points): a searchable tag edit copies such a feature
+		// alone into an overlay, which is where copy-up bookkeeping matters
+		if used := g.pathsUsedByAreas(); len(used) > 0 && rc.Pct(30) {
+			id = used[rc.Draw(len(used))]
+			if ring := g.specs[id]; ring != nil && len(ring.Path) > 0 && rc.Pct(40) {
+				if m := ring.Path[rc.Draw(len(ring.Path))]; m.Point >= 0 && g.specs[pointID(m.Point)] != nil {
+					id = pointID(m.Point)
+				}
+			}
+		}
 	} else {
 		id = pointID(maxPoints) // never exists
 	}
